@@ -12,9 +12,9 @@ import (
 	"testing"
 	"time"
 
+	clientv3 "go.etcd.io/etcd/client/v3"
 	appsv1 "k8s.io/api/apps/v1"
 	corev1 "k8s.io/api/core/v1"
-	clientv3 "go.etcd.io/etcd/client/v3"
 	"pgregory.net/rapid"
 	"sigs.k8s.io/controller-runtime/pkg/client"
 	"sigs.k8s.io/controller-runtime/pkg/client/fake"
@@ -37,6 +37,7 @@ import (
 // Kubernetes gives pod <statefulset>-<i> of a StatefulSet governed by a headless Service.
 
 const c39FindBucketLen = "C39-snapshot-bucket-longer-than-63"
+const c39FindNilReplicas = "C39-nil-replicas-publishes-one"
 
 // c39BucketProblem validates against the S3 general-purpose bucket naming rules.
 func c39BucketProblem(b string, checkMax bool) string {
@@ -69,8 +70,9 @@ func c39DerivedLen(cluster *kafscalev1alpha1.KafscaleCluster) int {
 // code into a fake API server and derives the stable pod addresses from those objects.
 // c39Pods is where the deployed broker pods can be reached, derived from the rendered objects.
 type c39Pods struct {
-	addr func(int32) string // stable DNS name of pod i
-	port int32              // the port the pods listen on for Kafka clients (container port "kafka")
+	addr     func(int32) string // stable DNS name of pod i
+	port     int32              // the port the pods listen on for Kafka clients (container port "kafka")
+	replicas int32              // replicas of the rendered broker StatefulSet
 }
 
 func c39PodAddrs(ctx context.Context, cluster *kafscalev1alpha1.KafscaleCluster) (pods c39Pods, stsReplicas *int32, problem string) {
@@ -121,7 +123,11 @@ func c39PodAddrs(ctx context.Context, cluster *kafscalev1alpha1.KafscaleCluster)
 	if kafkaPort == 0 || !svcTargetsKafka {
 		return c39Pods{}, nil, fmt.Sprintf("broker pods expose no container port named kafka (%d) targeted by the headless service %v", kafkaPort, svc.Spec.Ports)
 	}
-	return c39Pods{port: kafkaPort, addr: func(i int32) string {
+	deployed := int32(1) // Kubernetes default for an unset StatefulSet replica count
+	if sts.Spec.Replicas != nil {
+		deployed = *sts.Spec.Replicas
+	}
+	return c39Pods{port: kafkaPort, replicas: deployed, addr: func(i int32) string {
 		return fmt.Sprintf("%s-%d.%s.%s.svc.cluster.local", sts.Name, i, sts.Spec.ServiceName, sts.Namespace)
 	}}, sts.Spec.Replicas, ""
 }
@@ -134,7 +140,11 @@ func c39PodAddrs(ctx context.Context, cluster *kafscalev1alpha1.KafscaleCluster)
 // partition counts never shrink). n >= 1 is required.
 func c39CheckPublished(meta metadata.ClusterMetadata, cluster *kafscalev1alpha1.KafscaleCluster, pods c39Pods, declared []kafscalev1alpha1.KafscaleTopic, exactCount bool, info map[string]any) string {
 	podAddr := pods.addr
-	n := *cluster.Spec.Brokers.Replicas
+	// the replicas of the spec; when the spec leaves them unset, the replicas the operator deploys for it
+	n := pods.replicas
+	if r := cluster.Spec.Brokers.Replicas; r != nil {
+		n = *r
+	}
 	if int32(len(meta.Brokers)) != n {
 		return fmt.Sprintf("spec has %d broker replicas but the metadata lists %d brokers", n, len(meta.Brokers))
 	}
@@ -226,7 +236,7 @@ func c39CheckPublished(meta metadata.ClusterMetadata, cluster *kafscalev1alpha1.
 
 // c39Check runs the oracle on one cluster resource + topic set; "" = property holds.
 // skipLen: do not assert the upper length bound of the bucket (listed finding).
-func c39Check(ctx context.Context, cluster *kafscalev1alpha1.KafscaleCluster, topics []kafscalev1alpha1.KafscaleTopic, skipLen bool) (problem string, info map[string]any) {
+func c39Check(ctx context.Context, cluster *kafscalev1alpha1.KafscaleCluster, topics []kafscalev1alpha1.KafscaleTopic, skipLen, skipNil bool) (problem string, info map[string]any) {
 	info = map[string]any{}
 	pods, stsReplicas, problem := c39PodAddrs(ctx, cluster)
 	if problem != "" {
@@ -244,15 +254,22 @@ func c39Check(ctx context.Context, cluster *kafscalev1alpha1.KafscaleCluster, to
 	info["topics"] = len(meta.Topics)
 
 	specReplicas := cluster.Spec.Brokers.Replicas
-	if specReplicas != nil && *specReplicas >= 1 {
+	switch {
+	case specReplicas != nil && *specReplicas >= 1:
 		if stsReplicas == nil || *stsReplicas != *specReplicas {
 			return fmt.Sprintf("spec asks for %d broker replicas but the StatefulSet is rendered with %v", *specReplicas, stsReplicas), info
 		}
 		if p := c39CheckPublished(meta, cluster, pods, mine, true, info); p != "" {
 			return p, info
 		}
-	} else {
-		info["replicas_unset"] = true // below the CRD minimum / defaulted by the API server: crash-freedom only
+	case specReplicas == nil && !skipNil && pods.replicas >= 1:
+		// replicas left to the operator: the published brokers must match the pods it deploys for this spec
+		info["replicas_defaulted"] = true
+		if p := c39CheckPublished(meta, cluster, pods, mine, true, info); p != "" {
+			return fmt.Sprintf("spec.brokers.replicas is unset and the operator deploys %d broker pods, but: %s", pods.replicas, p), info
+		}
+	default:
+		info["replicas_unset"] = true // explicit 0 is rejected by the CRD (minimum 1), or the unset case is a listed finding: crash-freedom only
 	}
 
 	// --- derived bucket name (environment override unset: the name is derived, not configured)
@@ -284,7 +301,16 @@ func TestVF_C39_Metadata(t *testing.T) {
 				st.ExcludedCase(c39FindBucketLen)
 			}
 		}
-		problem, info := c39Check(ctx, cluster, topics, skipLen)
+		skipNil := false
+		if cluster.Spec.Brokers.Replicas == nil {
+			st.Class("replicas-unset")
+			if vfkit.Known(c39FindNilReplicas) {
+				// excluded: exactly the specs that leave spec.brokers.replicas unset (broker assertions dropped, bucket still checked)
+				skipNil = true
+				st.ExcludedCase(c39FindNilReplicas)
+			}
+		}
+		problem, info := c39Check(ctx, cluster, topics, skipLen, skipNil)
 		replicas := int32(-1)
 		if cluster.Spec.Brokers.Replicas != nil {
 			replicas = *cluster.Spec.Brokers.Replicas
@@ -335,15 +361,28 @@ func TestVF_C39_Witness(t *testing.T) {
 	one := int32(1)
 	cluster := &kafscalev1alpha1.KafscaleCluster{}
 	cluster.Namespace = "production-streaming-platform" // 29 characters
-	cluster.Name = "kafscale-orders-cluster"           // 23 characters
+	cluster.Name = "kafscale-orders-cluster"            // 23 characters
 	cluster.Spec.Brokers.Replicas = &one
-	problem, info := c39Check(ctx, cluster, nil, false)
+	problem, info := c39Check(ctx, cluster, nil, false, false)
 	still := strings.Contains(problem, "not a valid S3 bucket name")
 	st.KnownResult(c39FindBucketLen, still, fmt.Sprintf("namespace %q + cluster %q -> bucket %q (%d chars): %s", cluster.Namespace, cluster.Name, info["bucket"], len(fmt.Sprint(info["bucket"])), problem))
 	if problem != "" && !still {
 		t.Fatalf("witness failed for another reason: %s", problem)
 	}
 	t.Logf("%s: stillFails=%v %s", c39FindBucketLen, still, problem)
+
+	// replicas unset: the operator deploys 3 pods but publishes 1 broker
+	st.Eval()
+	unset := &kafscalev1alpha1.KafscaleCluster{}
+	unset.Namespace, unset.Name = "default", "demo"
+	unset.Spec.Brokers.AdvertisedHost = "kafka.example.com"
+	nilProblem, _ := c39Check(ctx, unset, nil, false, false)
+	nilStill := strings.Contains(nilProblem, "spec.brokers.replicas is unset")
+	st.KnownResult(c39FindNilReplicas, nilStill, "KafscaleCluster default/demo without spec.brokers.replicas, advertisedHost kafka.example.com: "+nilProblem)
+	if nilProblem != "" && !nilStill {
+		t.Fatalf("nil-replicas witness failed for another reason: %s", nilProblem)
+	}
+	t.Logf("%s: stillFails=%v %s", c39FindNilReplicas, nilStill, nilProblem)
 
 	// scale-down after a topic resource was deleted: the topic is carried over from the existing
 	// snapshot with the leaders it had under the old replica count
